@@ -27,7 +27,7 @@ func degree2Ciphertext(params rlwe.Parameters, sk *rlwe.SecretKey, lvl int, key 
 	// work in the NTT domain: sk.Value.Q is NTT+Montgomery, so MulCoeffsMontgomery(x, s) = x*s
 	c0 := rQ.NewPoly()
 	rQ.MulCoeffsMontgomery(c2, sk.Value.Q, t) // c2*s
-	rQ.Add(t, c1, t)                            // c2*s + c1
+	rQ.Add(t, c1, t)                          // c2*s + c1
 	rQ.MulCoeffsMontgomery(t, sk.Value.Q, t)  // c2*s^2 + c1*s
 	rQ.Sub(m, t, c0)
 	ct := rlwe.NewCiphertext(params, 2, lvl)
@@ -58,8 +58,12 @@ func rlkLeaf(c *engine.Chooser, name string, k cfg) {
 
 	inst, hist := axes(c)
 	alt := altEvkp(params, k, hist)
-	protos := mp.Instances(inst, k.n, func() multiparty.RelinearizationKeyGenProtocol { return multiparty.NewRelinearizationKeyGenProtocol(params) },
-		func(p multiparty.RelinearizationKeyGenProtocol) multiparty.RelinearizationKeyGenProtocol { return p.ShallowCopy() })
+	protos := mp.Instances(inst, k.n, func() multiparty.RelinearizationKeyGenProtocol {
+		return multiparty.NewRelinearizationKeyGenProtocol(params)
+	},
+		func(p multiparty.RelinearizationKeyGenProtocol) multiparty.RelinearizationKeyGenProtocol {
+			return p.ShallowCopy()
+		})
 	crps := make([]multiparty.RelinearizationKeyGenCRP, k.n)
 	eph := make([]*rlwe.SecretKey, k.n)
 	r1 := make([]multiparty.RelinearizationKeyGenShare, k.n)
@@ -85,7 +89,9 @@ func rlkLeaf(c *engine.Chooser, name string, k cfg) {
 	coverDigits(c, &r1[0].GadgetCiphertext)
 
 	flat := func(tag string) func(s multiparty.RelinearizationKeyGenShare) mp.Flat {
-		return func(s multiparty.RelinearizationKeyGenShare) mp.Flat { return mp.FlatGadget(params, &s.GadgetCiphertext, tag) }
+		return func(s multiparty.RelinearizationKeyGenShare) mp.Flat {
+			return mp.FlatGadget(params, &s.GadgetCiphertext, tag)
+		}
 	}
 	ops := func(round int) mp.Ops[multiparty.RelinearizationKeyGenShare] {
 		tag := [...]string{"", "rlk-round1", "rlk-round2"}[round]
